@@ -37,7 +37,7 @@ RULE = (
     'called input/output; BOOL defaults are 0/1 (export documents forcing one); SPAWNFLAGS keyvalues have no display '
     'name/default/description ("Spawnflags never use names"); choice and spawnflag names have no newline (export '
     'documents replacing them), spawnflag names no leading blank or own [N] label (the reader strips the label); '
-    'choice names no quote/backslash (always written with the classic escaping); a CHOICES/SPAWNFLAGS list of None equals an empty list '
+    'choice names no newline; quotes/backslashes in them only under custom_syntax; a CHOICES/SPAWNFLAGS list of None equals an empty list '
     '(choices_list/flags_list and KVDef.copy document it); helper arguments are in the canonical shape of their '
     'parser (no commas/parens, numbers that print exactly, key names that are not numbers) and autovis() is not '
     'generated as a helper (parse-only); resource types are those with an @resources keyword; with '
